@@ -32,7 +32,7 @@ RULE = ("behaviour-tree programs with 1-6 deferred resolver calls (modes S/P/C, 
         "distinct = distinct (program, configuration)")
 
 CFG = {"bexec": "CBlockingExec", "brt": "CBlockingRt", "aio": "CAsyncio", "aiot": "CAsyncio", "pool": "CPool",
-       "poole": "CPool", "prom": "CPool", "threads": "CThreads"}
+       "poole": "CPool", "poolh": "CPool", "prom": "CPool", "threads": "CThreads"}
 
 
 def F(k, m, b, nn=False, lv=0, **kw):
@@ -154,7 +154,7 @@ def _cases_for(prog, limit, samples, seed, configs=("bexec", "brt", "aio", "aiot
     out = []
     for c in configs:
         case = {"prog": prog, "config": c, "limit": limit, "samples": samples, "seed": seed}
-        if c in ("aio", "aiot", "pool", "poole", "prom"):
+        if c in ("aio", "aiot", "pool", "poole", "poolh", "prom"):
             try:
                 n = len(_explore(case)["runs"])
             except Exception:  # noqa: reported per case by the runner (run_impl raises again)
@@ -223,8 +223,10 @@ def generate(rng, tier):
         plan += [dict(n=260, min_tasks=2, max_tasks=5, p_exn=0.0), dict(n=150, min_tasks=2, max_tasks=5, p_exn=0.12),
                  dict(n=120, min_tasks=4, max_tasks=6, p_exn=0.05), dict(n=30, min_tasks=6, max_tasks=7, p_exn=0.03),
                  dict(n=20, min_tasks=1, max_tasks=1, p_exn=0.1)]
-    for p in eager_programs(quick):
+    for i, p in enumerate(eager_programs(quick)):
         cases.extend(_cases_for(p, limit, samples, rng.randrange(1 << 30), configs=("poole",)))
+        if i % 3 == 0 or not quick:
+            cases.extend(_cases_for(p, limit, samples, rng.randrange(1 << 30), configs=("poolh",)))
     for _ in range(12 if quick else 150):
         p = gen_sched.gen_program(rng, rng.choice(["query", "query", "mutation"]), 1, 3 if quick else 4,
                                   p_exn=0.2, p_err=0.2)
@@ -261,7 +263,7 @@ def to_coq(case, obs):
     if "comb" in case:
         return sched_comb.c_case(case["comb"], obs)
     cfg = case["config"]
-    acfg = "pool" if cfg in ("threads", "poole", "prom") else cfg
+    acfg = "pool" if cfg in ("threads", "poole", "poolh", "prom") else cfg
     bad = sp.bad_paths(case["prog"])
     return "(CaseProg %s %s [%s])" % (CFG[cfg], sp.c_prog(case["prog"], acfg),
                                ";\n ".join(sp.c_obs(o, bad) for o in obs["runs"]))
@@ -276,7 +278,7 @@ def show_expr(case, obs):
 def nontrivial(case, obs):
     if "comb" in case:
         return len(case["comb"]["sigma"]) >= 2
-    return case["config"] in ("aio", "aiot", "pool", "poole", "prom", "threads") and (
+    return case["config"] in ("aio", "aiot", "pool", "poole", "poolh", "prom", "threads") and (
         len(obs["runs"]) > 1 or any("fail" in r for r in obs["runs"]))
 
 
@@ -331,7 +333,7 @@ def shrink(case, is_bad):
     while changed:
         changed = False
         for p in gen_sched.sub_programs(cur["prog"]):
-            if gen_sched.n_tasks(p, "pool") < 1 and cur["config"] in ("aio", "aiot", "pool", "poole", "prom", "threads"):
+            if gen_sched.n_tasks(p, "pool") < 1 and cur["config"] in ("aio", "aiot", "pool", "poole", "poolh", "prom", "threads"):
                 continue
             cand = dict(cur, prog=p)
             cand.pop("chunk", None)
@@ -355,7 +357,7 @@ def _extra_evidence(cases, obss):
     fails = errs = 0
     for c, o in zip(cases, obss):
         per_cfg[c["config"]] = per_cfg.get(c["config"], 0) + 1
-        if c["config"] in ("aio", "aiot", "pool", "poole", "prom"):
+        if c["config"] in ("aio", "aiot", "pool", "poole", "poolh", "prom"):
             if c.get("chunk", [0])[0] != 0:
                 continue
             orders += o.get("orders_total", len(o["runs"]))
@@ -364,7 +366,7 @@ def _extra_evidence(cases, obss):
             tasks[n] = tasks.get(n, 0) + 1
         fails += 1 if any("fail" in r for r in o["runs"]) else 0
         errs += 1 if any(r.get("errors") for r in o["runs"]) else 0
-    sched_cases = sum(1 for c in cases if c["config"] in ("aio", "aiot", "pool", "poole", "prom") and c.get("chunk", [0])[0] == 0)
+    sched_cases = sum(1 for c in cases if c["config"] in ("aio", "aiot", "pool", "poole", "poolh", "prom") and c.get("chunk", [0])[0] == 0)
     return {"exhaustive": bool(sched_cases) and exhaustive == sched_cases,
             "distribution": {
                 "cases_per_configuration": per_cfg,
